@@ -2451,7 +2451,7 @@ column_name_value_expr
         num.Val = num.Val[1:]
         $$ = num
       } else {
-        $$ = NewIntVal(append([]byte("-"), num.Val...))
+        $$ = &SQLVal{Type: IntVal, Val: append([]byte("-"), num.Val...), CastType: num.CastType}
       }
     } else {
       $$ = &UnaryExpr{Operator: UMinusStr, Expr: $2}
